@@ -19,7 +19,7 @@ from typing import Any, Callable, Dict, List, Optional
 
 from . import env
 
-FILE = os.path.join(env.VERIF_DIR, "known_findings.json")
+FILE = os.environ.get("VCHECK_FINDINGS_FILE") or os.path.join(env.VERIF_DIR, "known_findings.json")
 
 # name -> predicate(case, facts) ; registered by property modules next to the oracle they belong to
 PREDICATES: Dict[str, Callable[[Any, Dict[str, Any]], bool]] = {}
